@@ -1323,3 +1323,25 @@ pub fn block_record_roundtrip(block_type: u8, data: &[u8]) -> Option<(u8, Vec<u8
     let parsed = BlockRecord::try_from(&bytes).ok()?;
     Some(parsed.parts_for_verif())
 }
+
+/// Serialise and parse the edit of a trivial move (file `num` deleted at `level`, added at `level + 1`).
+/// Returns (deleted (level, number) pairs, added (level, number) pairs) of the parsed edit.
+pub fn manifest_trivial_move_roundtrip(level: usize, num: u64, size: u64) -> Option<(Vec<(usize, u64)>, Vec<(usize, u64)>)> {
+    let mut m = VersionChangeManifest::default();
+    m.remove_file(level, num);
+    m.add_file(level + 1, num, size, InternalKey::new(vec![1], 9, Operation::Put)..InternalKey::new(vec![2], 8, Operation::Put));
+    let bytes: Vec<u8> = Vec::from(&m);
+    let r = match VersionChangeManifest::try_from(bytes.as_slice()) {
+        Ok(p) => {
+            let mut del: Vec<(usize, u64)> = p.deleted_files.iter().map(|d| (d.level, d.file_number)).collect();
+            del.sort();
+            let add: Vec<(usize, u64)> = p.new_files.iter().map(|(l, f)| (*l, f.file_number())).collect();
+            core::mem::forget(p);
+            Some((del, add))
+        }
+        Err(_) => None,
+    };
+    core::mem::forget(m);
+    core::mem::forget(bytes);
+    r
+}
